@@ -4,6 +4,7 @@ import PieModel.Props.C01Full
 import PieModel.Props.C01FullCex
 import PieModel.Props.C02IdemW
 import PieModel.Props.C04Just
+import PieModel.Props.C01FullMixed
 #print axioms PieModel.C02_consistent_memo
 #print axioms PieModel.C02_consistent_memo_sound
 #print axioms PieModel.C02_settled
@@ -44,3 +45,4 @@ import PieModel.Props.C04Just
 #print axioms PieModel.C02_exec_justified_trace_all
 #print axioms PieModel.C02_output_trace
 #print axioms PieModel.C02_consistent_not_executed_trace
+#print axioms PieModel.C02_minimal_mixed_history
